@@ -15,21 +15,22 @@ package main
 
 import (
 	"bytes"
+	"encoding/json"
 	"fmt"
 	"io"
 	"math/rand"
 	"os"
 	"path/filepath"
 	"runtime"
-	"sort"
-	"strings"
 	"sync"
 
 	"verifharness/lib"
 	"verifharness/wire"
 )
 
-func init() { register("c01", checkC01) }
+func init() {
+	register("c01", func(c *lib.Ctx) { xfInChild(c, "c01", checkC01) })
+}
 
 type xfAPIVariant struct {
 	API string
@@ -269,69 +270,6 @@ type xfJob struct {
 	Idx  int
 }
 
-// xfModelLines collects de-duplicated (driver line, implementation answer) pairs.
-type xfModelLines struct {
-	mu    sync.Mutex
-	seen  map[string]bool
-	lines []string
-	impl  []string
-}
-
-func (m *xfModelLines) add(line, impl string) {
-	m.mu.Lock()
-	defer m.mu.Unlock()
-	k := line + "\x00" + impl
-	if m.seen == nil {
-		m.seen = map[string]bool{}
-	}
-	if m.seen[k] {
-		return
-	}
-	m.seen[k] = true
-	m.lines = append(m.lines, line)
-	m.impl = append(m.impl, impl)
-}
-
-func (m *xfModelLines) compare(c *lib.Ctx, prefix string) {
-	// keep the order deterministic
-	idx := make([]int, len(m.lines))
-	for i := range idx {
-		idx[i] = i
-	}
-	sort.Slice(idx, func(a, b int) bool {
-		if m.lines[idx[a]] != m.lines[idx[b]] {
-			return m.lines[idx[a]] < m.lines[idx[b]]
-		}
-		return m.impl[idx[a]] < m.impl[idx[b]]
-	})
-	var l, im []string
-	nbig, budget := 0, xfBigBudget(c)
-	for _, i := range idx {
-		if xfBigLine(m.lines[i]) && !strings.HasPrefix(m.lines[i], "xfer.plan") {
-			nbig++
-		}
-	}
-	seen, next, step := 0, 0.0, float64(nbig)/float64(budget)
-	for _, i := range idx {
-		if xfBigLine(m.lines[i]) && !strings.HasPrefix(m.lines[i], "xfer.plan") && nbig > budget {
-			take := float64(seen) >= next
-			seen++
-			if !take {
-				continue
-			}
-			next += step
-		}
-		l = append(l, m.lines[i])
-		im = append(im, m.impl[i])
-	}
-	if nbig > budget {
-		c.R.Note("%s: %d of %d xfer.readat lines with mp=32768 evaluated by the model (evenly spaced selection)", prefix, budget, nbig)
-	}
-	if len(l) > 0 {
-		c.Compare(prefix, l, im)
-	}
-}
-
 func xfMaxTx(spec xfSrvSpec) int {
 	if spec.MaxTx != 0 {
 		return int(spec.MaxTx)
@@ -343,7 +281,7 @@ func checkC01(c *lib.Ctx) {
 	r := c.R
 	res := &xfRes{r: r}
 	thorough := c.Tier == "thorough"
-	r.Rule = "transfers = server kind {os, rs} x {allocator off,on} x {max-tx default, 65536} plus scripted peer {in order, permuted replies} x client options MaxPacket{Checked,Unchecked} mp in {1,2,3,4,7,32768} x MaxConcurrentRequestsPerFile in {1,2,3,64} x UseConcurrentReads x UseConcurrentWrites x UseFstat (quick: every (mp,conc) pair three times per server kind with the booleans rotating; thorough: the full product) x API {ReadAt, Read, WriteTo, WriteAt, Write, ReadFrom with sources Len/Size/Stat/LimitedReader/opaque(+1-byte reads, lying or negative Size, oversized limit), ReadFromWithConcurrency 0/1/3} x (file size, offset, length) from {0,1,k*mp-1,k*mp,k*mp+1 (k=1..3), mp*conc+r} and uniform draws up to 3*mp*conc+2 (thorough: every length 0..3*mp*conc+2 for mp<=7, conc<=3); a case is non-trivial when it needs more than one packet or touches end of file; distinct by (server, options, api, source, sizes)"
+	r.Rule = "transfers = server kind {os, rs} x {allocator off,on} x {max-tx default, 65536} plus scripted peer {in order, permuted replies} x client options MaxPacket{Checked,Unchecked} mp in {1,2,3,4,7,32768} (and 40000 against the servers with max-tx 65536) x MaxConcurrentRequestsPerFile in {1,2,3,64} x UseConcurrentReads x UseConcurrentWrites x UseFstat (quick: every (mp,conc) pair three times per server kind with the booleans rotating; thorough: the full product) x API {ReadAt, Read, WriteTo, WriteAt, Write, ReadFrom with sources Len/Size/Stat/LimitedReader/opaque(+1-byte reads, lying or negative Size, oversized limit), ReadFromWithConcurrency 0/1/3} x (file size, offset, length) from {0,1,k*mp-1,k*mp,k*mp+1 (k=1..3), mp*conc+r} and uniform draws up to 3*mp*conc+2 (thorough: every length 0..3*mp*conc+2 for mp<=7, conc<=3); a case is non-trivial when it needs more than one packet or touches end of file; distinct by (server, options, api, source, sizes)"
 	model := xfProbeModel(c)
 	xfProbeDefects(&model)
 	if model.Seq {
@@ -360,7 +298,6 @@ func checkC01(c *lib.Ctx) {
 		return
 	}
 	defer os.RemoveAll(root)
-	ml := &xfModelLines{}
 	mc := &xfSeqCompare{}
 	if thorough {
 		mc.oneIn = 8
@@ -411,7 +348,7 @@ func checkC01(c *lib.Ctx) {
 		}
 		if cs.Srv.Kind == "peer" && model.Plan && len(cs.Fail) == 0 {
 			if e := xfExpectWire(cs); e.PurePlan && cs.ShortCap == 0 {
-				ml.add(fmt.Sprintf("xfer.plan %d %d %d", cs.Cfg.MP, cs.Off, cs.Len), xfPlanText(xfDataReqs(out.Log, e.Typ)))
+				mc.add(xfSeqLine{readat: true, input: cs, line: fmt.Sprintf("xfer.plan %d %d %d", cs.Cfg.MP, cs.Off, cs.Len), calls: xfPlanText(xfDataReqs(out.Log, e.Typ))})
 			}
 		}
 		if cs.ShortCap == 0 && cs.FileLen <= 150000 && cs.Len <= 150000 { // (the model works on byte lists; MB-sized cases take seconds)
@@ -420,22 +357,29 @@ func checkC01(c *lib.Ctx) {
 	}
 
 	if c.Replay != "" {
-		var cs xfCase
-		if err := lib.ReadReplay(c.Replay, &cs); err != nil {
+		inputs, err := xfReplayInputs(c.Replay)
+		if err != nil {
 			r.Fail(lib.Failure{Kind: "tie", Key: "replay", What: err.Error()})
 			return
 		}
-		var real *xfReal
-		if cs.Srv.Kind != "peer" {
-			real, err = xfStartPair(cs.Srv, cs.Cfg, root)
-			if err != nil {
-				r.Fail(lib.Failure{Kind: "tie", Key: "setup/pair", What: err.Error()})
-				return
+		for _, raw := range inputs {
+			var cs xfCase
+			if err := json.Unmarshal(raw, &cs); err != nil || cs.API == "" {
+				continue // (a crash report lists the in-flight cases of all three checks)
 			}
-			defer real.Shutdown()
+			var real *xfReal
+			if cs.Srv.Kind != "peer" {
+				real, err = xfStartPair(cs.Srv, cs.Cfg, root)
+				if err != nil {
+					r.Fail(lib.Failure{Kind: "tie", Key: "setup/pair", What: err.Error()})
+					return
+				}
+			}
+			runCase(cs, real, root, nil)
+			if real != nil {
+				real.Shutdown()
+			}
 		}
-		runCase(cs, real, root, nil)
-		ml.compare(c, "c01")
 		mc.compare(c, "c01")
 		return
 	}
@@ -452,12 +396,19 @@ func checkC01(c *lib.Ctx) {
 		for _, cfg := range cfgs {
 			jobs = append(jobs, xfJob{Spec: sp, Cfg: cfg, Seed: c.Rand.Int63(), Idx: len(jobs)})
 		}
+		if sp.MaxTx >= 40000 {
+			// a packet size above 32768 is within the property as long as the server's max payload covers it
+			for b, conc := range []int{1, 3} {
+				jobs = append(jobs, xfJob{Spec: sp, Cfg: xfCfg{MP: 40000, Unchecked: true, Conc: conc, CR: (si+b)%2 == 0, CW: (si/2+b)%2 == 0, Fstat: b == 0},
+					Seed: c.Rand.Int63(), Idx: len(jobs)})
+			}
+		}
 	}
 	variants := xfAPIVariants(thorough)
 	var sampleMu sync.Mutex
 	sampled := map[string]bool{}
 
-	xfParallel(len(jobs), runtime.GOMAXPROCS(0), func(ji int) {
+	xfParallel(len(jobs), runtime.GOMAXPROCS(0), func(w, ji int) {
 		job := jobs[ji]
 		rng := rand.New(rand.NewSource(job.Seed))
 		dir := filepath.Join(root, fmt.Sprintf("j%d", job.Idx))
@@ -476,7 +427,7 @@ func checkC01(c *lib.Ctx) {
 			}
 			defer real.Shutdown()
 		}
-		hold := &xfPeerHold{}
+		hold := &xfPeerHold{slot: w}
 		defer hold.Close()
 		cfg := job.Cfg
 		classes := xfSizeClasses(cfg.MP, cfg.Conc)
@@ -555,6 +506,5 @@ func checkC01(c *lib.Ctx) {
 			}
 		}
 	})
-	ml.compare(c, "c01")
 	mc.compare(c, "c01")
 }
